@@ -39,6 +39,9 @@ class NumpyEncoder(json.JSONEncoder):
     def default(self, obj):
         if isinstance(obj, np.ndarray):
             return obj.tolist()
+        if isinstance(obj, np.generic):
+            # a computed number is a NumPy scalar
+            return obj.item()
         return json.JSONEncoder.default(self, obj)
 
 
